@@ -25,6 +25,8 @@ type routerEntry struct {
 	File      string
 	New       func(o ...router.Option) typedRouter
 	NewClient func(c grpc.ClientConnInterface) any
+	// WithFactory is the generated WithXxxClientFactory applied to an untyped Factory
+	WithFactory func(f router.Factory) router.Option
 }
 
 // registrar captures the service description a router registers itself under.
@@ -228,7 +230,7 @@ func (f *fakeServerStream) RecvMsg(m any) error {
 
 // ---- canonical forms ----
 
-func coqStr(s string) string { return vcoq.Str(s) }
+func coqStr(s string) string { return coqStrExact(s) }
 
 func coqMD(md metadata.MD) string {
 	keys := make([]string, 0, len(md))
